@@ -49,6 +49,10 @@ def sorts(**kw):
     SORTS.update(kw)
 
 
+def written_only_in(attr, function_key):
+    """the attribute is assigned only inside that function (checked on the real source every run)"""
+
+
 def write_once(*attrs):
     """attributes that only `self.<attr> = ...` inside an `__init__` ever assigns (checked on the real source every run)"""
 
